@@ -22,6 +22,7 @@ import (
 	"context"
 	"fmt"
 	"sort"
+	"strconv"
 	"strings"
 	"sync"
 	"testing"
@@ -279,8 +280,18 @@ func genItemPair(rt *rapid.T) (c13Item, c13Item, string) {
 	case "EP":
 		a := c13Item{fam: "EP", block: block, comp: comp}
 		b := a
-		mode := rapid.SampledFrom([]string{"embed", "embed-quoted", "pair", "subset", "random", "block", "comp", "permuted"}).Draw(rt, "emode")
+		mode := rapid.SampledFrom([]string{"embed", "embed-quoted", "embed-name", "embed-name-quoted", "pair", "subset", "random", "block", "comp", "permuted"}).Draw(rt, "emode")
 		switch mode {
+		case "embed-name", "embed-name-quoted":
+			// [m1, m2] vs a single matcher whose NAME spells out "<m1>;<name of m2>" (label names may be
+			// any UTF-8 string): the rendering of a matcher list must keep names apart from the rest too
+			m1, m2 := genMatcher(rt, "m1"), genMatcher(rt, "m2")
+			a.ms = []c13Matcher{m1, m2}
+			n := m1.concat() + ";" + m2.Name
+			if mode == "embed-name-quoted" {
+				n = m1.Name + m1.Type.String() + strconv.Quote(m1.Value) + ";" + m2.Name
+			}
+			b.ms = []c13Matcher{{n, m2.Type, m2.Value}}
 		case "embed", "embed-quoted":
 			// [m1, m2] vs a single matcher whose value spells out "<v1>;<m2>"
 			m1, m2 := genMatcher(rt, "m1"), genMatcher(rt, "m2")
